@@ -103,6 +103,9 @@ type endpoint struct {
 	// opened) and never returns consumed credit on streams afterwards
 	pregrant   bool
 	pregranted map[uint32]bool
+	// slow: the endpoint reads DATA slowly over a small socket buffer, so the relay's writer
+	// blocks and frames pile up in its output queue
+	slow bool
 	r                  *lib.RNG
 	// continuation assembly
 	contStream  uint32
@@ -174,6 +177,14 @@ func (e *endpoint) readLoop(done chan struct{}) {
 	defer close(done)
 	for {
 		f, err := e.fr.ReadFrame()
+		if err == nil && e.slow {
+			e.mu.Lock()
+			g := e.greedy
+			e.mu.Unlock()
+			if _, ok := f.(*http2.DataFrame); ok && !g {
+				time.Sleep(150 * time.Microsecond)
+			}
+		}
 		if err != nil {
 			e.mu.Lock()
 			e.readErr = err.Error()
